@@ -334,6 +334,12 @@ func ruleReleaseCoverage(c *Ctx, rule string) {
 					return false
 				}
 				if instrReaches(a, b) || instrReaches(b, a) {
+					// both stores execute: exclusive still when the VALUES are — every non-nil
+					// source of one is selected under a condition that contradicts the
+					// condition of every non-nil source of the other (switch on the protocol)
+					if w.sameKey(a.Addr.(*ssa.FieldAddr).X, b.Addr.(*ssa.FieldAddr).X) && valuesExclusive(w, a, b) {
+						continue
+					}
 					return false
 				}
 				// both on one fresh object?
@@ -1656,4 +1662,52 @@ func ruleArmThenPublish(c *Ctx, rule string) {
 	} else {
 		c.Bad(rule, fname(create), "insert→callback", w.pos(create.Pos()), "the created-callback can run before the allocation is in the table: expiry or Manager.Close during a slow callback finds nothing, and the allocation is published afterwards with a spent timer")
 	}
+}
+
+// valuesExclusive: the values stored by a and b cannot both be non-nil: for every pair of
+// non-nil sources the facts under which they are selected contain one atom with opposite
+// truth values.
+func valuesExclusive(w *World, a, b *ssa.Store) bool {
+	la, okA := w.sources(a.Val, a, nil)
+	lb, okB := w.sources(b.Val, b, nil)
+	if !okA || !okB {
+		return false
+	}
+	nonNil := func(ls []srcLeaf) []*srcLeaf {
+		var out []*srcLeaf
+		for i := range ls {
+			if !isNilConst(ls[i].val) {
+				out = append(out, &ls[i])
+			}
+		}
+		return out
+	}
+	na, nb := nonNil(la), nonNil(lb)
+	if len(na) == 0 || len(nb) == 0 {
+		return true
+	}
+	for _, x := range na {
+		for _, y := range nb {
+			contra := false
+			for _, f := range x.facts {
+				for _, g := range y.facts {
+					if f.Op == g.Op && f.Truth != g.Truth && sameAtomSides(w, f, g) {
+						contra = true
+					}
+					// X == c1 vs X == c2 with different constants
+					if f.Op == "==" && g.Op == "==" && f.Truth && g.Truth {
+						cf, okf := constInt(f.Y)
+						cg, okg := constInt(g.Y)
+						if okf && okg && cf != cg && (f.X == g.X || w.sameKey(f.X, g.X)) {
+							contra = true
+						}
+					}
+				}
+			}
+			if !contra {
+				return false
+			}
+		}
+	}
+	return true
 }
